@@ -148,58 +148,101 @@ def use_before_any_binding(func):
     return out
 
 
+RECEIVER_CLASS = {'model': 'Model'}
+_ctor_maps = {}
+
+
+def constructed_attrs(repo):
+    """class -> {attribute: class}  for  self.<attribute> = <Class>(...)  in a method of the class (one class per attribute)"""
+    key = repo.root
+    if key not in _ctor_maps:
+        out = {}
+        for rel, tree in repo.trees.items():
+            for c in [n for n in ast.walk(tree) if isinstance(n, ast.ClassDef)]:
+                m = {}
+                for n in ast.walk(c):
+                    if isinstance(n, ast.Assign) and len(n.targets) == 1 and isinstance(n.targets[0], ast.Attribute) and isinstance(n.targets[0].value, ast.Name) \
+                            and n.targets[0].value.id == 'self' and isinstance(n.value, ast.Call) and isinstance(n.value.func, ast.Name) and n.value.func.id in repo.classes:
+                        m.setdefault(n.targets[0].attr, set()).add(n.value.func.id)
+                out[c.name] = {a: next(iter(v)) for a, v in m.items() if len(v) == 1}
+        _ctor_maps[key] = out
+    return _ctor_maps[key]
+
+
+_current_repo = [None]
+
+
+def receiver_class(expr, own_cls):
+    """class of the object an attribute is taken from, when the receiver expression tells: self -> the own class,
+    <anything>.model / model -> Model, <anything>.options_parser -> Options_parser, a name containing 'pair' -> Pair"""
+    if isinstance(expr, ast.Name):
+        if expr.id == 'self':
+            return own_cls
+        if expr.id in RECEIVER_CLASS:
+            return RECEIVER_CLASS[expr.id]
+        toks = expr.id.lower().split('_')
+        if toks[-1] == 'pair' or (len(toks) >= 2 and toks[-2] == 'pair' and len(toks[-1]) <= 1):
+            return 'Pair'               # pair, st_pr_pair, lec_pair, assigned_pair_i  (never a plural or a container name)
+        return None
+    if isinstance(expr, ast.Attribute) and expr.attr in RECEIVER_CLASS:
+        return RECEIVER_CLASS[expr.attr]
+    if isinstance(expr, ast.Attribute) and isinstance(expr.value, ast.Name) and expr.value.id == 'self' and own_cls and _current_repo[0] is not None:
+        return constructed_attrs(_current_repo[0]).get(own_cls, {}).get(expr.attr)       # self.parser = Parser() in this class
+    return None
+
+
 def attribute_definitions(repo):
-    """class name -> set of attribute names that can exist on its instances: stored on self in a method of the class (plain
-    assignment, not +=), class-level names, methods; plus, for every class, the names stored on a NON-self receiver
-    anywhere in the package (model.num_students = ..., pair.lp_var = ...) - the receiver's class is not resolved, so those
-    count for all classes (conservative: fewer reports)."""
-    external = set()
+    """class name -> attribute names that can exist on its instances: assigned (plain assignment, not +=) on a receiver of
+    that class anywhere in the package (self.x = in its methods, model.x = elsewhere, see receiver_class), class-level
+    names and methods.  Second value: names assigned on receivers whose class is unknown (they count for every class)."""
+    unknown = set()
     per_class = {}
+    _current_repo[0] = repo
     for rel, tree in repo.trees.items():
-        for n in ast.walk(tree):
-            if isinstance(n, ast.ClassDef):
-                s = per_class.setdefault(n.name, set())
-                for st in n.body:
-                    if isinstance(st, (ast.FunctionDef, ast.ClassDef)):
-                        s.add(st.name)
-                    elif isinstance(st, ast.Assign):
-                        for t in st.targets:
-                            for x in ast.walk(t):
-                                if isinstance(x, ast.Name):
-                                    s.add(x.id)
-                    elif isinstance(st, ast.AnnAssign) and isinstance(st.target, ast.Name):
-                        s.add(st.target.id)
-                for m in ast.walk(n):
-                    if isinstance(m, (ast.Assign, ast.AnnAssign, ast.For, ast.With)):
-                        tgts = m.targets if isinstance(m, ast.Assign) else ([m.target] if isinstance(m, (ast.AnnAssign, ast.For)) else [i.optional_vars for i in m.items if i.optional_vars is not None])
-                        for t in tgts:
-                            for x in ast.walk(t):
-                                if isinstance(x, ast.Attribute) and isinstance(x.ctx, ast.Store) and isinstance(x.value, ast.Name) and x.value.id == 'self':
-                                    s.add(x.attr)
-                    if isinstance(m, ast.Call) and isinstance(m.func, ast.Name) and m.func.id == 'setattr' and len(m.args) == 3 and isinstance(m.args[0], ast.Name) and m.args[0].id == 'self':
-                        if isinstance(m.args[1], ast.Constant):
-                            s.add(m.args[1].value)
-                        else:
-                            s.add('*')
-            if isinstance(n, (ast.Assign, ast.AnnAssign)):
-                tgts = n.targets if isinstance(n, ast.Assign) else [n.target]
-                for t in tgts:
-                    for x in ast.walk(t):
-                        if isinstance(x, ast.Attribute) and isinstance(x.ctx, ast.Store) and not (isinstance(x.value, ast.Name) and x.value.id == 'self'):
-                            external.add(x.attr)
-            if isinstance(n, ast.Call) and isinstance(n.func, ast.Name) and n.func.id == 'setattr' and len(n.args) == 3 and not (isinstance(n.args[0], ast.Name) and n.args[0].id == 'self'):
-                external.add(n.args[1].value if isinstance(n.args[1], ast.Constant) else '*')
-    return per_class, external
+        for cls_node in [n for n in ast.walk(tree) if isinstance(n, ast.ClassDef)]:
+            s = per_class.setdefault(cls_node.name, set())
+            for st in cls_node.body:
+                if isinstance(st, (ast.FunctionDef, ast.ClassDef)):
+                    s.add(st.name)
+                elif isinstance(st, ast.Assign):
+                    for t in st.targets:
+                        for x in ast.walk(t):
+                            if isinstance(x, ast.Name):
+                                s.add(x.id)
+                elif isinstance(st, ast.AnnAssign) and isinstance(st.target, ast.Name):
+                    s.add(st.target.id)
+        # every store, with the class of the function it sits in
+        def visit(node, own):
+            for ch in ast.iter_child_nodes(node):
+                o = ch.name if isinstance(ch, ast.ClassDef) else own
+                if isinstance(ch, (ast.Assign, ast.AnnAssign, ast.For, ast.With)):
+                    tgts = ch.targets if isinstance(ch, ast.Assign) else ([ch.target] if isinstance(ch, (ast.AnnAssign, ast.For)) else [i_.optional_vars for i_ in ch.items if i_.optional_vars is not None])
+                    for t in tgts:
+                        for x in ast.walk(t):
+                            if isinstance(x, ast.Attribute) and isinstance(x.ctx, ast.Store):
+                                k = receiver_class(x.value, o)
+                                if k is None:
+                                    unknown.add(x.attr)
+                                else:
+                                    per_class.setdefault(k, set()).add(x.attr)
+                if isinstance(ch, ast.Call) and isinstance(ch.func, ast.Name) and ch.func.id == 'setattr' and len(ch.args) == 3:
+                    k = receiver_class(ch.args[0], o)
+                    name = ch.args[1].value if isinstance(ch.args[1], ast.Constant) else '*'
+                    if k is None:
+                        unknown.add(name)
+                    else:
+                        per_class.setdefault(k, set()).add(name)
+                visit(ch, o)
+        visit(tree, None)
+    return per_class, unknown
 
 
 def never_defined_attributes(repo, func, defs=None):
-    """self.X read in a method of class C where X is defined nowhere for C (see attribute_definitions) and the read is not
-    guarded by hasattr(self, 'X') / inside try.  -> [(attribute, line)]"""
-    if not func.cls:
-        return []
-    per_class, external = defs or attribute_definitions(repo)
-    have = per_class.get(func.cls, set())
-    if '*' in have or '*' in external:
+    """R.X read where the class of R is known (receiver_class) and X is defined nowhere for that class, the read not being
+    guarded by hasattr / getattr / try.  -> [(class, attribute, line)]"""
+    per_class, unknown = defs or attribute_definitions(repo)
+    _current_repo[0] = repo
+    if '*' in unknown:
         return []
     guarded = {n.args[1].value for n in ast.walk(func.node) if isinstance(n, ast.Call) and isinstance(n.func, ast.Name) and n.func.id in ('hasattr', 'getattr') and len(n.args) >= 2
                and isinstance(n.args[1], ast.Constant)}
@@ -210,8 +253,164 @@ def never_defined_attributes(repo, func, defs=None):
                 in_try.add(id(x))
     out, seen = [], set()
     for n in ast.walk(func.node):
-        if isinstance(n, ast.Attribute) and isinstance(n.ctx, ast.Load) and isinstance(n.value, ast.Name) and n.value.id == 'self' and id(n) not in in_try:
-            if n.attr not in have and n.attr not in external and n.attr not in guarded and n.attr not in seen and not n.attr.startswith('__'):
-                out.append((n.attr, n.lineno))
-                seen.add(n.attr)
+        if isinstance(n, ast.Attribute) and isinstance(n.ctx, ast.Load) and id(n) not in in_try:
+            k = receiver_class(n.value, func.cls)
+            if k is None or k not in per_class or '*' in per_class[k]:
+                continue
+            if n.attr not in per_class[k] and n.attr not in unknown and n.attr not in guarded and (k, n.attr) not in seen and not n.attr.startswith('__'):
+                out.append((k, n.attr, n.lineno))
+                seen.add((k, n.attr))
+    return out
+
+
+_lib_names = {}
+
+
+def library_star_names(module):
+    """public top-level names a `from <library> import *` brings in, read from the library's source (its own star imports of
+    sub-modules followed)."""
+    import importlib.util, os
+    if module in _lib_names:
+        return _lib_names[module]
+    names = set()
+    _lib_names[module] = names
+    try:
+        spec_ = importlib.util.find_spec(module)
+    except (ImportError, ValueError):
+        spec_ = None
+    if spec_ is None or not spec_.origin or not spec_.origin.endswith('.py'):
+        names.add('*')
+        return names
+    try:
+        tree = ast.parse(open(spec_.origin).read())
+    except (OSError, SyntaxError):
+        names.add('*')
+        return names
+    pkg = module if spec_.origin.endswith('__init__.py') else module.rsplit('.', 1)[0]
+    for st in tree.body:
+        if isinstance(st, (ast.FunctionDef, ast.ClassDef)):
+            names.add(st.name)
+        elif isinstance(st, ast.Assign):
+            for t in st.targets:
+                for x in ast.walk(t):
+                    if isinstance(x, ast.Name):
+                        names.add(x.id)
+        elif isinstance(st, ast.Import):
+            for a in st.names:
+                names.add((a.asname or a.name).split('.')[0])
+        elif isinstance(st, ast.ImportFrom):
+            mod = ('.' * st.level) + (st.module or '')
+            if st.level:
+                base = pkg.split('.')
+                base = base[:len(base) - (st.level - 1)] if st.level > 1 else base
+                mod = '.'.join(base + ([st.module] if st.module else []))
+            if st.level and st.module:
+                names.add(st.module.split('.')[0])          # importing a sub-module binds it in the package
+            for a in st.names:
+                if a.name == '*':
+                    names |= library_star_names(mod)
+                else:
+                    names.add(a.asname or a.name)
+        elif isinstance(st, (ast.If, ast.Try)):
+            for x in ast.walk(st):
+                if isinstance(x, (ast.FunctionDef, ast.ClassDef)):
+                    names.add(x.name)
+                elif isinstance(x, ast.Name) and isinstance(x.ctx, ast.Store):
+                    names.add(x.id)
+    return names
+
+
+def module_names(repo, relpath):
+    """names bound at the top level of a repository module, star imports resolved (repository modules by their own top
+    level, libraries by library_star_names)"""
+    import builtins
+    tree = repo.trees[relpath]
+    names = set(dir(builtins))
+    for st in ast.walk(tree):
+        pass
+    for st in tree.body:
+        if isinstance(st, (ast.FunctionDef, ast.ClassDef)):
+            names.add(st.name)
+        elif isinstance(st, (ast.Assign, ast.AnnAssign, ast.AugAssign)):
+            for x in ast.walk(st):
+                if isinstance(x, ast.Name) and isinstance(x.ctx, ast.Store):
+                    names.add(x.id)
+        elif isinstance(st, ast.Import):
+            for a in st.names:
+                names.add((a.asname or a.name).split('.')[0])
+        elif isinstance(st, ast.ImportFrom):
+            for a in st.names:
+                if a.name != '*':
+                    names.add(a.asname or a.name)
+                    continue
+                # star import: a sibling module of the repository, or a library
+                cand = None
+                if st.level:
+                    import os
+                    cand = os.path.normpath(os.path.join(os.path.dirname(relpath), *(['..'] * (st.level - 1)), (st.module or '').replace('.', '/') + '.py'))
+                elif st.module and st.module.startswith('matchingproblems'):
+                    cand = st.module.replace('.', '/') + '.py'
+                if cand in repo.trees:
+                    names |= module_names(repo, cand)
+                else:
+                    names |= library_star_names(st.module or '')
+        elif isinstance(st, (ast.If, ast.Try, ast.With, ast.For, ast.While)):
+            for x in ast.walk(st):
+                if isinstance(x, ast.Name) and isinstance(x.ctx, ast.Store):
+                    names.add(x.id)
+                elif isinstance(x, (ast.FunctionDef, ast.ClassDef)):
+                    names.add(x.name)
+    return names
+
+
+def undefined_names(repo, func):
+    """a name that is read in the function and is bound neither in it (as a local, parameter, import, loop / with / except
+    target, comprehension variable, nested def) nor at the top level of its module nor by an import nor as a builtin:
+    NameError when the statement runs.  -> [(name, line)]"""
+    fn = func.node
+    local = set()
+    for n in ast.walk(fn):
+        if isinstance(n, ast.Name) and isinstance(n.ctx, (ast.Store, ast.Del)):
+            local.add(n.id)
+        elif isinstance(n, ast.arg):
+            local.add(n.arg)
+        elif isinstance(n, (ast.FunctionDef, ast.ClassDef)):
+            local.add(n.name)
+        elif isinstance(n, (ast.Import, ast.ImportFrom)):
+            for a in n.names:
+                local.add((a.asname or a.name).split('.')[0])
+        elif isinstance(n, ast.ExceptHandler) and n.name:
+            local.add(n.name)
+    glob = module_names(repo, func.relpath)
+    if '*' in glob:
+        return []
+    out, seen = [], set()
+    for n in ast.walk(fn):
+        if isinstance(n, ast.Name) and isinstance(n.ctx, ast.Load) and n.id not in local and n.id not in glob and n.id not in seen:
+            out.append((n.id, n.lineno))
+            seen.add(n.id)
+    return out
+
+
+def stuck_loops(func):
+    """while <test on names>: body  where the body assigns none of the names the test reads (and calls no method on them,
+    and has no break / return): once entered, the loop never ends.  -> [(line, test)]"""
+    out = []
+    for w in ast.walk(func.node):
+        if not isinstance(w, ast.While) or isinstance(w.test, ast.Constant):
+            continue
+        names = {x.id for x in ast.walk(w.test) if isinstance(x, ast.Name)}
+        if any(isinstance(x, (ast.Call, ast.Attribute)) and not (isinstance(x, ast.Call) and isinstance(x.func, ast.Name) and x.func.id == 'len') for x in ast.walk(w.test)):
+            continue
+        changed = False
+        for st in w.body:
+            for x in ast.walk(st):
+                if isinstance(x, (ast.Break, ast.Return, ast.Raise)):
+                    changed = True
+                if isinstance(x, ast.Name) and x.id in names and isinstance(x.ctx, (ast.Store, ast.Del)):
+                    changed = True
+                if isinstance(x, ast.Call) and isinstance(x.func, ast.Attribute) and isinstance(x.func.value, ast.Name) and x.func.value.id in names:
+                    changed = True          # xs.append(...), xs.pop() ...
+        if not changed and names:
+            out.append((w.lineno, ast.unparse(w.test)))
     return out
